@@ -177,6 +177,34 @@ def replay_block(block):
     return pickle.loads(data)
 
 
+def replay_forked(replay_case, case):
+    """replay_case(case) in a freshly forked child: the parent process never executes a replay itself, so one
+    replay cannot pollute process-global library state seen by the next (history-dependent findings)."""
+    import pickle
+
+    r, w = os.pipe()
+    pid = os.fork()
+    if pid == 0:
+        try:
+            os.close(r)
+            try:
+                out = ("ok", [(k, d) for k, d in replay_case(case)])
+            except BaseException:  # noqa: BLE001
+                out = ("crash", traceback.format_exc())
+            with os.fdopen(w, "wb") as f:
+                pickle.dump(out, f)
+        finally:
+            os._exit(0)
+    os.close(w)
+    with os.fdopen(r, "rb") as f:
+        data = f.read()
+    os.waitpid(pid, 0)
+    st, out = pickle.loads(data) if data else ("crash", "replay child died without a result")
+    if st == "crash":
+        raise RuntimeError(out)
+    return out
+
+
 class Broken(Exception):
     """The check itself failed (harness error, vacuous exploration, replay divergence)."""
 
@@ -333,7 +361,7 @@ def finish(
         # determinism: replay twice without the explorer, same finding key both times
         for attempt in range(2):
             try:
-                got = replay_case(case) if "__block__" not in case else replay_block(case["__block__"])
+                got = replay_forked(replay_case, case) if "__block__" not in case else replay_block(case["__block__"])
             except BaseException:
                 print(f"BROKEN: replay of {key} crashed:\n{traceback.format_exc()}")
                 sys.exit(2)
